@@ -457,6 +457,20 @@ func init() {
 		}
 		funcBody("histoFullRenderBody", rend+"histoWriter.go", "HistoWriter.fullRender")
 
+		// the --scale names, and the legend line of the heatmap: ScaleKeys, the unmapVal closures, UpdateMinMax
+		funcBody("scalerByNameBody", scale, "ScalerByName")
+		funcBody("scaleKeysBody", scale, "Scaler.ScaleKeys")
+		for _, nm := range [][2]string{{"ScalerLinear", "unmapLinearBody"}, {"ScalerLog2", "unmapLog2Body"}, {"ScalerLog10", "unmapLog10Body"}} {
+			var body *ast.BlockStmt
+			if elts, ok := c14Elts(c.Var(scale, nm[0])); ok && len(elts) >= 2 {
+				if fl, ok := elts[1].(*ast.FuncLit); ok {
+					body = fl.Body
+				}
+			}
+			bodyOf(nm[1], nm[0]+".unmapVal: the statements of the closure, printed", body)
+		}
+		funcBody("heatUpdateMinMaxBody", rend+"heatmap.go", "Heatmap.UpdateMinMax")
+
 		// the key column of the histogram and the bar graph (f0d0278, cde79bf): how the key is padded, what widens the
 		// column, what triggers a re-draw
 		funcBody("padVisibleBody", rend+"histoWriter.go", "padVisible")
